@@ -434,11 +434,55 @@ def sublayout_order(binpath, seed, sh, copies):
     return res
 
 
+def keyid_spelling(binpath, seed, sh, reps):
+    """key identifiers written with capital hex digits on one side of a lookup (the signature entry of the layout, a
+    member name of the key table): whatever the library makes of such a spelling, it makes the same of it on every run -
+    many repetitions with fresh maps, because a lookup that depends on the hash seed may hit only once in a hundred"""
+    rng = common.rng_for(seed, PROP, 6000 + sh)
+    W = scen.World(binpath)
+    res = common.Result()
+    owner = rng.choice(["ed0", "edp0", "ed1"])
+    fn = rng.choice(["ed4", "ed5", "edp2"])
+    empty = scen.mk_layout(W, [], [], [])
+    one = scen.mk_layout(W, [fn], [scen.mk_step("build", 1, [W.kid(fn)], [], [["ALLOW", "*"]], [["ALLOW", "*"]])], [])
+    wires = scen.sign_all(binpath, [(empty, [owner], "new"), (one, [owner], "new"), (pipeline.leaf_link("build", 0), [fn], "new")], nproc=1)
+    keys = [[W.kid(owner), W.pub(owner)]]
+    link_files = {f"build.{W.pfx(fn)}.link": scen.dumps(wires[2])}
+    cases = []
+    # (a) the owner's signature entry names the key id in capitals
+    w = copy.deepcopy(wires[0])
+    w["signatures"][0]["keyid"] = w["signatures"][0]["keyid"].upper()
+    cases.append(scen.verify_case(w, keys, {}, reps=reps, meta={"kind": "keyid_capitals:layout_signature", "nlinks": 0}))
+    # (b) the functionary's key is filed in the key table under its id in capitals (the layout is signed that way)
+    one_up = copy.deepcopy(one)
+    one_up["keys"] = {k.upper(): v for k, v in one["keys"].items()}
+    w2 = scen.sign_all(binpath, [(one_up, [owner], "new")], nproc=1)[0]
+    w2["signed"]["keys"] = one_up["keys"]         # on the wire as authored, not as the signer normalised it
+    cases.append(scen.verify_case(w2, keys, link_files, reps=reps, meta={"kind": "keyid_capitals:key_table_member", "nlinks": 1}))
+    # (c) the link's signature entry names the functionary's id in capitals
+    l3 = copy.deepcopy(wires[2])
+    l3["signatures"][0]["keyid"] = l3["signatures"][0]["keyid"].upper()
+    cases.append(scen.verify_case(wires[1], keys, {f"build.{W.pfx(fn)}.link": scen.dumps(l3)}, reps=reps,
+                                  meta={"kind": "keyid_capitals:link_signature", "nlinks": 1}))
+    # control: everything in lower case verifies
+    cases.append(scen.verify_case(wires[1], keys, link_files, reps=8, meta={"kind": "keyid_capitals:control", "nlinks": 1}))
+    obs = common.run_batch(binpath, cases)
+    for c, o in zip(cases, obs):
+        d = judge_group(c, [o], res)
+        if d is not None:
+            res.note([c["meta"]["kind"], c["layout"][:80]], True,
+                     cls=[f"kind:{c['meta']['kind']}", f"outcomes:{len(d)}", "accept_seen" if any(k[0] == "accept" for k in d) else "reject_only"],
+                     n=len(o["runs"]))
+    return res
+
+
 def main(ctx):
     res = common.Result()
     for p in common.pmap(history, [(ctx.bin, ctx.seed, s) for s in range(4 if not ctx.thorough else common.NPROC)]):
         res.merge(p)
     for p in common.pmap(sublayout_order, [(ctx.bin, ctx.seed, s, 12 if not ctx.thorough else 48) for s in range(2 if not ctx.thorough else common.NPROC)]):
+        res.merge(p)
+    for p in common.pmap(keyid_spelling, [(ctx.bin, ctx.seed, s, 2500 if not ctx.thorough else 20000) for s in range(3 if not ctx.thorough else common.NPROC)]):
         res.merge(p)
     seen = set()
     for p in common.pmap(enum_order, [(ctx.bin, ctx.seed, s) for s in range(2 if not ctx.thorough else common.NPROC)]):
@@ -461,6 +505,7 @@ def main(ctx):
         assumptions=["fresh HashMap instances get fresh SipHash keys (std RandomState), fresh processes fresh base keys"],
         required=["kind:summary_only", "kind:disallow", "kind:match_next", "kind:delegated_surplus", "kind:require",
                   "kind:multi_party_nested_dissent", "kind:same_key_two_descriptions", "history:delegated:outcomes:1", "history:accept", "history:failing_verifications_in_between",
-                  "iteration_order_varied", "accept_seen", "kind:enumeration_order", "kind:sublayout_inspections_share_workdir", "enumeration:symlink_listed_first",
+                  "iteration_order_varied", "accept_seen", "kind:enumeration_order", "kind:sublayout_inspections_share_workdir", "kind:keyid_capitals:layout_signature",
+                  "kind:keyid_capitals:key_table_member", "kind:keyid_capitals:control", "enumeration:symlink_listed_first",
                   "enumeration:symlink_listed_second"],
         min_evals=2000)
